@@ -71,6 +71,8 @@ def run_diff(ctx, donors, tier):
 def donors_for(ctx):
     en = enabled()
     cand = QUICK_DONORS if ctx.quick else ALL_DONORS
+    if os.environ.get("VERIF_DONORS"):       # development aid: restrict the donors
+        cand = os.environ["VERIF_DONORS"].split(",")
     ds = [d for d in cand if d in en]
     if not ds:
         raise Infra("no donor checks enabled")
